@@ -762,4 +762,95 @@ theorem mrun_prog (c : PCfg β) (hf : c.py.fixed = true) (hp : Uft.Mcount.Plain 
       evB_selCalls (liftCfg c.py) addr f0 false false 0 0 c.hk.m.maxStack (selProg (liftCfg c.py) addr f1 r)]
     simp
 
+/-! ### code objects (Model/PyHook §6) -/
+
+/-- the final tables of a sequence of events -/
+def runCodeTab (cmp : β → β → Ordering) (isLib : β → Bool) : Tree β → Shm β → List (CEv β) → Tree β × Shm β
+  | t, shm, [] => (t, shm)
+  | t, shm, e :: es =>
+    let r := convertCode cmp isLib t shm e
+    runCodeTab cmp isLib r.1 r.2.1 es
+
+theorem convertCode_ok (cmp : β → β → Ordering) (hc : CmpEq cmp) (isLib : β → Bool) (t : Tree β) (shm : Shm β)
+    (e : CEv β) (hs : ShmOk shm) (ht : TreeOk cmp isLib shm t) :
+    ShmOk (convertCode cmp isLib t shm e).2.1 ∧
+    TreeOk cmp isLib (convertCode cmp isLib t shm e).2.1 (convertCode cmp isLib t shm e).1 := by
+  unfold convertCode
+  cases h : e.heap e.code with
+  | none => exact ⟨hs, ht⟩
+  | some n => exact ⟨convert_shmOk _ _ _ _ _ hs, convert_treeOk _ hc _ _ _ _ ht⟩
+
+/-- the symbol of an event carries the name of the code object that lives at the event's
+    address at that moment, and it is the table's entry for that name afterwards -/
+theorem convertCode_name (cmp : β → β → Ordering) (hc : CmpEq cmp) (isLib : β → Bool) (t : Tree β) (shm : Shm β)
+    (e : CEv β) (ht : TreeOk cmp isLib shm t) :
+    (convertCode cmp isLib t shm e).2.2.map Sym.name = e.heap e.code ∧
+    ∀ s, (convertCode cmp isLib t shm e).2.2 = some s →
+      (convertCode cmp isLib t shm e).1.find cmp s.name = some s := by
+  unfold convertCode
+  cases h : e.heap e.code with
+  | none => simp
+  | some n =>
+    have hf := find_convert cmp hc isLib t shm n
+    have hn := (convert_treeOk cmp hc isLib t shm n ht) n _ hf
+    constructor
+    · simp [hn.1]
+    · intro s hs
+      simp only [Option.some.injEq] at hs
+      subst hs
+      rw [hn.1]; exact hf
+
+theorem convertCode_keeps (cmp : β → β → Ordering) (hc : CmpEq cmp) (isLib : β → Bool) (t : Tree β) (shm : Shm β)
+    (e : CEv β) (m : β) (s : Sym β) (h : t.find cmp m = some s) :
+    (convertCode cmp isLib t shm e).1.find cmp m = some s := by
+  unfold convertCode
+  cases he : e.heap e.code with
+  | none => exact h
+  | some n => exact convert_keeps cmp hc isLib t shm n m s h
+
+theorem runCodeTab_keeps (cmp : β → β → Ordering) (hc : CmpEq cmp) (isLib : β → Bool) :
+    ∀ (evs : List (CEv β)) (t : Tree β) (shm : Shm β) (m : β) (s : Sym β), t.find cmp m = some s →
+      (runCodeTab cmp isLib t shm evs).1.find cmp m = some s
+  | [], _, _, _, _, h => h
+  | e :: es, t, shm, m, s, h =>
+    runCodeTab_keeps cmp hc isLib es _ _ m s (convertCode_keeps cmp hc isLib t shm e m s h)
+
+theorem runCodeTab_ok (cmp : β → β → Ordering) (hc : CmpEq cmp) (isLib : β → Bool) :
+    ∀ (evs : List (CEv β)) (t : Tree β) (shm : Shm β), ShmOk shm → TreeOk cmp isLib shm t →
+      ShmOk (runCodeTab cmp isLib t shm evs).2 ∧
+      TreeOk cmp isLib (runCodeTab cmp isLib t shm evs).2 (runCodeTab cmp isLib t shm evs).1
+  | [], _, _, hs, ht => ⟨hs, ht⟩
+  | e :: es, t, shm, hs, ht =>
+    have h := convertCode_ok cmp hc isLib t shm e hs ht
+    runCodeTab_ok cmp hc isLib es _ _ h.1 h.2
+
+theorem runCode_names (cmp : β → β → Ordering) (hc : CmpEq cmp) (isLib : β → Bool) :
+    ∀ (evs : List (CEv β)) (t : Tree β) (shm : Shm β), ShmOk shm → TreeOk cmp isLib shm t →
+      (runCode cmp isLib t shm evs).map (Option.map Sym.name) = evs.map (fun e => e.heap e.code)
+  | [], _, _, _, _ => rfl
+  | e :: es, t, shm, hs, ht => by
+    have h := convertCode_ok cmp hc isLib t shm e hs ht
+    simp only [runCode, List.map_cons, (convertCode_name cmp hc isLib t shm e ht).1]
+    rw [runCode_names cmp hc isLib es _ _ h.1 h.2]
+
+/-- every symbol handed back during the run is the final table's entry for its name -/
+theorem runCode_final (cmp : β → β → Ordering) (hc : CmpEq cmp) (isLib : β → Bool) :
+    ∀ (evs : List (CEv β)) (t : Tree β) (shm : Shm β), TreeOk cmp isLib shm t → ShmOk shm →
+      ∀ s, some s ∈ runCode cmp isLib t shm evs → (runCodeTab cmp isLib t shm evs).1.find cmp s.name = some s
+  | [], _, _, _, _, s, h => by simp [runCode] at h
+  | e :: es, t, shm, ht, hs, s, h => by
+    have hok := convertCode_ok cmp hc isLib t shm e hs ht
+    simp only [runCode, List.mem_cons] at h
+    rcases h with h | h
+    · have := (convertCode_name cmp hc isLib t shm e ht).2 s h.symm
+      exact runCodeTab_keeps cmp hc isLib es _ _ _ _ this
+    · exact runCode_final cmp hc isLib es _ _ hok.2 hok.1 s h
+
+/-! ### the launcher (Model/PyHook §7) -/
+
+theorem isPrefixOf_append_self (a b : Path) : a.isPrefixOf (a ++ b) = true := by
+  induction a with
+  | nil => simp [List.isPrefixOf]
+  | cons x xs ih => simp [ih]
+
 end Uft.PyHook
